@@ -530,7 +530,7 @@ package resource
 //@     invariant [INT] `exists` ==> oldVal != nil && !isnil(oldVal.body)
 //@     decreases 5 - attempt
 //@
-//@ property C01 C04 C05 C06 C07 C14
+//@ property C01 C04 C05 C06 C07 C14 C16
 //@ // ---- the goroutine that forwards a Value's events to one subscriber (C04, C06, C16 suppression step, C10 close) ----
 //@ // The bus of a Value only ever carries *ValueChange (see set#post.event-value); the seed comes from onUpdate.
 //@ func (*Value).Pull$1()
@@ -555,7 +555,7 @@ package resource
 //@
 //@ // ---- the goroutine that forwards a Collection's events to one subscriber (C04 seeds/edit script, C08 include before
 //@ // mask and equivalence, C06 projection, C10 close) ----
-//@ property C04 C06 C08 C10
+//@ property C04 C06 C08 C10 C16
 //@
 //@ func (*Collection).Pull$1()
 //@   requires c != nil && c.config != nil && filter != nil && readConfig != nil && send != nil && !isnil(ctx)
